@@ -312,7 +312,21 @@ def r6_sibling_registrars(ctx):
     sibling_param_agreement(ctx, "C13.R6m", (("register_method", M % "register_method"), ("register_async_method", M % "register_async_method"), ("register_blocking_method", M % "register_blocking_method")), 2)
 
 
-RULES = [r1_insert_after_verify, r2_all_or_nothing, r3_copy_on_write, r4_dispatch_and_remove, r5_not_found_iff_unbound, r6_sibling_registrars]
+
+def r7_names_spelled_alike(ctx):
+    """method names are written into the registry (verify_and_insert, register_alias, merge, verify_and_register_unsubscribe)
+    and read from it (method, method_with_name, the server's dispatcher) in the same spelling: the text transformations
+    applied by writers and readers agree (today: none on either side). A one-sided fold makes a bound name unreachable
+    (method not found) or lets a different spelling reach it."""
+    from .common import text_transforms
+    F, R = ctx.F, ctx.R
+    M = r"^jsonrpsee_core::server::rpc_module::"
+    w = text_transforms(F, R, (M + r"Methods::verify_and_insert$", M + r"Methods::merge$", M + r"RpcModule::<Context>::register_alias$", M + r"RpcModule::<Context>::verify_and_register_unsubscribe$", M + r"Methods::verify_method_name$"))
+    r = text_transforms(F, R, (M + r"Methods::method_with_name$", M + r"Methods::method$", r"^<jsonrpsee_server::middleware::rpc::RpcService as jsonrpsee_core::middleware::RpcServiceT>::call$", M + r"Methods::inner_call$"))
+    R.check(w == r, "C13.R7", "method-name-spelling:writer-reader-agree", "registration and lookup use method names in the same spelling (transformations: %s)" % (sorted(w) or "none"), "registration transforms method names with %s but lookup with %s: a registered name is not found under its own spelling (or found under another)" % (sorted(w) or "nothing", sorted(r) or "nothing"), None)
+
+
+RULES = [r1_insert_after_verify, r2_all_or_nothing, r3_copy_on_write, r4_dispatch_and_remove, r5_not_found_iff_unbound, r6_sibling_registrars, r7_names_spelled_alike]
 
 LEVEL_TEXT = (
     "For operation histories on one module the property is exactly a statement about which checks dominate which "
